@@ -11,7 +11,7 @@ def add(pid, level, technique, text, note):
     CHECKS[pid] = (level, technique, text, note)
 
 add("C01", "exploration",
-    "runtime monitoring with a reference-model oracle: an independent ~100-line router predicts the site or not-found per request; per-site marker header plus an innermost hit-counting probe identify which chain ran and how often; outcomes compared across all declaration orders and transports (HTTP/1.1, HTTP/1.1 over TLS, HTTP/2)",
+    "runtime monitoring with a reference-model oracle: an independent ~100-line router predicts the site or not-found per request; per-site marker header plus an innermost hit-counting probe identify which chain ran and how often; outcomes compared across all declaration orders and transports (HTTP/1.1, HTTP/1.1 over TLS, HTTP/2); a concurrent battery drives real httpserver.Server objects through Server.ServeHTTP from 64 goroutines and judges every answer with the same reference router",
     "Real casket listeners, every declaration order of generated overlapping exact/wildcard/catch-all x nested-prefix site sets (exhaustive <=2 sites, reduced-alphabet 3, random <=5), each probed with ~140 raw-socket Host/target spellings; 0.6 M judged requests quick, 8.1 M over 9.8 k site sets and 57 k listeners thorough.",
     "Says nothing about designated FallbackSites (not reachable from a Casketfile), bind, QUIC or inputs outside the alphabets; 404/421 asserted only for site-not-found.")
 add("C02", "exploration",
@@ -20,15 +20,15 @@ add("C02", "exploration",
     "Sampled beyond 2 (quick) / 3 (thorough) path segments; Linux file semantics only; floors enforce that files, index pages, siblings, listings, archives, symlinks and redirects were actually observed.")
 add("C03", "exploration",
     "runtime monitoring: token search in decoded/un-archived bodies of credential-less requests with a credentialed sanity half; in-harness HTTP and FastCGI backends emit tokens; fixture generator and child supervisor shared with C02",
-    "Across 138 (quick) / 649 (thorough) site variants (4 protections + scope spellings x feature subsets) no credential-less or wrong-credential request (~24 spellings x methods x encodings x archive queries) returned a protected file's or backend's token, except the two archive-of-ancestor findings listed in known_findings.json; every protected file was reached with valid credentials and every feature shown effective. A concurrent battery overlaps slow anonymous readers of 6 MiB public pages and wrong-password clients with authenticated requests and searches their responses for protected tokens.",
+    "Across 138 (quick) / 649 (thorough) site variants (4 protections + scope spellings x feature subsets) no credential-less or wrong-credential request (~24 spellings x methods x encodings x archive queries) returned a protected file's or backend's token, except the two archive-of-ancestor findings listed in known_findings.json; every protected file was reached with valid credentials and every feature shown effective. A concurrent battery overlaps slow anonymous readers of 6 MiB public pages and wrong-password clients with authenticated requests and searches their responses for protected tokens. Further phases: a two-rule basicauth variant, protected files replaced by rename while the server runs, htpasswd files of different roots under one relative name.",
     "Feature pairs sampled in quick, all pairs plus random larger subsets in thorough; OPTIONS excluded for basicauth by the statement; names in listings not judged.")
 add("C04", "exploration",
     "runtime monitoring: recording raw-socket backend and raw-socket client around a real casket proxy (16 upstream-block shapes incl. three retry shapes); field-by-field comparison of method, escaped path, query, header multisets, bodies, status and trailers against a reference transformation written from the statement",
-    "30 000 (quick) / 300 000 (thorough) generated (request, upstream block, backend reply) triples: 7 methods, escaped/UTF-8/double-slash paths, 15 queries, header multisets with repeated/empty/hop-by-hop/Connection-named fields and prior X-Forwarded-For, bodies 0-1 MiB around the 4/32/64 KiB boundaries in both framings, replies with split writes and announced/unannounced/mixed trailers; every triple compared in both directions, about 12 % of them after a failed first attempt. Also slow (paused) response streams, retries after a refused credentialed upstream, and the Go race detector.",
+    "30 000 (quick) / 300 000 (thorough) generated (request, upstream block, backend reply) triples: 7 methods, escaped/UTF-8/double-slash paths, 15 queries, header multisets with repeated/empty/hop-by-hop/Connection-named fields and prior X-Forwarded-For, bodies 0-1 MiB around the 4/32/64 KiB boundaries in both framings, replies with split writes and announced/unannounced/mixed trailers; every triple compared in both directions, about 12 % of them after a failed first attempt. Also slow (paused) response streams, retries after a refused credentialed upstream, and the Go race detector. Backends that die in mid-reply inside retrying blocks (the client must hold a prefix of that reply only), X-Forwarded-For named in Connection, a short connect timeout with slow response streams.",
     "Path equality on the RFC 3986 normal form; Host and framing fields of each hop, front-added Server/Date/sniffed Content-Type and Go-transport default User-Agent/Accept-Encoding not judged; request trailers, 1xx, websocket/unix/srv upstreams and an HTTP/2 front not driven; the Connection-with-close leak is a known finding (net/http).")
 add("C05", "fault_enumeration",
     "runtime monitoring: exhaustive enumeration of pool states against every policy with a reference availability oracle; end-to-end fault injection (closed / reset / half-read backends) with body-hash conservation; Go race detector",
-    "Every policy is executed on every assignment of host states for pools up to size 7 (quick) / 10 (thorough) x 64 keys, through staticUpstream.Select and Policy.Select, and real proxy blocks are driven against every pattern of failing backends for pools of 2-4; the oracle checks membership in the available set, stickiness, evenness, least-loaded, first, complete body at the healthy backend and the 502 lower time bound. A concurrent battery (8 goroutines x 500 selections) checks the same oracle under contention.",
+    "Every policy is executed on every assignment of host states for pools up to size 7 (quick) / 10 (thorough) x 64 keys, through staticUpstream.Select and Policy.Select, and real proxy blocks are driven against every pattern of failing backends for pools of 2-4; the oracle checks membership in the available set, stickiness, evenness, least-loaded, first, complete body at the healthy backend and the 502 lower time bound. A concurrent battery (8 goroutines x 500 selections) checks the same oracle under contention. A quarter of the keys are boundary keys of FNV-1a (hash within 7 of either end of the 32-bit range); end-to-end scenarios include clients that pause in mid-body for longer than try_duration.",
     "Availability = UpstreamHost.Available(); SRV upstreams and active health checks not driven; time only enters as a lower bound that weakens under load.")
 add("C06", "exploration",
     "runtime monitoring of real casket instances (one listener shared by 2-6 HTTPS sites with harness-minted certificates): each probe makes a fingerprint handshake (unique first ALPN token per host pattern) and an http/1.1 connection crossed with >=10 Host headers, judged by a reference SNI matcher (exact, wildcard by label, catch-all) plus a protocol-level model of version/cipher/client-certificate negotiation; invalid site sets must make casket.Start fail and leave no listener",
@@ -36,7 +36,7 @@ add("C06", "exploration",
     "Nothing asserted for SNI names that match no site when there is no catch-all, nor for which of the IP-address site or the catch-all governs an absent SNI; only Go's ClientHello and ECDSA certificates exercised; a suspected violation must repeat on 3 decided attempts.")
 add("C07", "fault_enumeration",
     "runtime monitoring: recorded client/reload histories checked with porcupine against a regular-register model (reload = begin/end write, request = read of the config marker), per-request completeness oracle, listening-socket inode identity and strace bind count; delay hook between start-new and stop-old; Go race detector",
-    "Histories of 16-24 concurrent fresh-connection clients over 12-16 reloads (every third one failing at parse / setup / import / startup-callback / listen time) are recorded at the client boundary and decided by a linearizability checker against the register the statement describes; every response must be complete and self-consistent with the configuration that produced it and listening sockets must keep their inodes (thorough: exactly one bind() per address under strace). History modes rotate: normal, requests stalled half-sent across a reload (grace 300 ms and 0), and an unchanged Casketfile text importing a file that changes; strace bind/fcntl counting runs in both tiers.",
+    "Histories of 16-24 concurrent fresh-connection clients over 12-16 reloads (every third one failing at parse / setup / import / startup-callback / listen time) are recorded at the client boundary and decided by a linearizability checker against the register the statement describes; every response must be complete and self-consistent with the configuration that produced it and listening sockets must keep their inodes (thorough: exactly one bind() per address under strace). History modes rotate: normal, requests stalled half-sent across a reload (grace 300 ms and 0), and an unchanged Casketfile text importing a file that changes; strace bind/fcntl counting runs in both tiers. Also a slow-drain mode under the default grace period, rejected listen-time configurations that open 40 more ports and are retried, a bind history (addresses added, kept, moved on one port) and access logs on all history sites.",
     "HTTP/1.1 plaintext; default 5 s grace; porcupine timeout = inconclusive; SIGUSR1 path is exercised in C08/C16, not here.")
 add("C08", "fault_enumeration",
     "runtime monitoring: per-attempt quiescent snapshots of hooked process state (instance list, event-hook registry, own listening sockets by inode from /proc, port connectability, answers of running sites) compared before/after every failed attempt; differential run against a fresh process; deadlock decided from the child's own goroutine dump (parked on a casket mutex); Go race detector",
@@ -52,11 +52,11 @@ add("C10", "exploration",
     "Termination is decided by counted doImport expansions against a bound computed from the fixture graph (plus CPU/heap guards), never by wall clock; held only for the generated alphabets and stated layout conventions.")
 add("C11", "exploration",
     "runtime monitoring: real directive setups run in chroot-ed child processes with a write-ahead journal, per-case recover, an in-process progress watchdog and a goroutine-dump oracle for lock-parked non-returns; asynchronous crashes attributed by bisecting replays; a parsing-callback probe compares validate against a real casket.Start",
-    "About 390 k (quick) / 2.8 M (thorough) generated single- and two-directive configurations over all 29 registered http directives (keyword vocabulary scraped from /repo sources at run time), each loaded twice through ValidateAndExecuteDirectives; a stratified sample of ~2.7 k (quick) / 24.5 k (thorough) cases is also started with casket.Start and compared on directive acceptance. The second validate load points address arguments at a listener that never answers (a load blocked on it is a hang); the start phase also uses two-key site blocks (a qualifying name and localhost, both orders).",
+    "About 390 k (quick) / 2.8 M (thorough) generated single- and two-directive configurations over all 29 registered http directives (keyword vocabulary scraped from /repo sources at run time), each loaded twice through ValidateAndExecuteDirectives; a stratified sample of ~2.7 k (quick) / 24.5 k (thorough) cases is also started with casket.Start and compared on directive acceptance. The second validate load points address arguments at a listener that never answers (a load blocked on it is a hang); the start phase also uses two-key site blocks (a qualifying name and localhost, both orders). The fixture holds damaged certificate bundles; the vocabulary includes named string constants of the sources and port ranges at the 16-bit boundary.",
     "Panic, process death, exit and lock-parked non-return are violations; agreement is on directive acceptance only; CPU-bound non-returns are inconclusive; keyword triples and head arity above 4 not covered.")
 add("C12", "exploration",
     "runtime monitoring of the real middleware chain around a scriptable innermost dev directive (verifprobe): sequential raw-socket cases per child process with a same-connection barrier request, client-side reference oracle for status and decoded body, exact attribution of net/http's superfluous-WriteHeader diagnostics, new-connection liveness probe after every panic",
-    "Every subset of the 11 wrapping directives (3072 sites thorough, 488 quick) x 58 scripted contract-respecting handler behaviours x {GET,HEAD,POST} x Accept-Encoding {none,gzip}, each checked against the statement's reference (2.1 M requests thorough; 170 k quick). Plus http.ErrAbortHandler panics, a 1/24 sample replayed by a client that half-closes after the request against a handler that takes 25 ms, and a concurrent cross-talk battery (slow reader of a 6 MiB response beside 24 peers).",
+    "Every subset of the 11 wrapping directives (3072 sites thorough, 488 quick) x 58 scripted contract-respecting handler behaviours x {GET,HEAD,POST} x Accept-Encoding {none,gzip}, each checked against the statement's reference (2.1 M requests thorough; 170 k quick). Plus http.ErrAbortHandler panics, a 1/24 sample replayed by a client that half-closes after the request against a handler that takes 25 ms, and a concurrent cross-talk battery (slow reader of a 6 MiB response beside 24 peers). Bodies sent with io.Copy, 103 interim responses before the real one, and 16 clients failing at once on 192 KiB configured error pages.",
     "HTTP/1.1 plaintext, default directive arguments, bodies without template actions; commit count relies on net/http's diagnostic whose capture is proven per run by the panic-after-write positive control.")
 add("C13", "exploration",
     "runtime monitoring with a reference model (CGI map, split on original bytes) plus differential observation at two responders (byte-level scripted responder recording the exact record stream; Go's net/http/fcgi child) and the client socket; error-log scan after instance stop; HEAD sentinel request for connection integrity",
@@ -64,7 +64,7 @@ add("C13", "exploration",
     "Pairs judged only when 8+name+value <= 65500; chunked CGI replies and 1xx statuses not judged; Linux case-sensitive file system.")
 add("C14", "fault_enumeration",
     "runtime monitoring: invariants asserted at quiescent points on hooked state (UpstreamHost.Conns/Fails vs. backend-side gauges and the monitor's own event log), delay hook in the select/forward window, Go race detector with attribution to the accounting state",
-    "Bursts of 4-64 simultaneous requests through the real proxy against gate-holding backends for every setting of hosts x policy x max_conns x max_fails x fail_timeout, with per-request outcomes ok / backend abort / client cancel / panic while committing; Conns must equal forwards at every quiescent point, never exceed max_conns, return to zero; Fails must match unexpired failures, down-ness must follow max_fails, and both must expire. Retry-accounting rounds: every request fails on host 0 and is then parked in another backend; host 0 must not stay counted.",
+    "Bursts of 4-64 simultaneous requests through the real proxy against gate-holding backends for every setting of hosts x policy x max_conns x max_fails x fail_timeout, with per-request outcomes ok / backend abort / client cancel / panic while committing; Conns must equal forwards at every quiescent point, never exceed max_conns, return to zero; Fails must match unexpired failures, down-ness must follow max_fails, and both must expire. Retry-accounting rounds: every request fails on host 0 and is then parked in another backend; host 0 must not stay counted. Down-ness is also checked for a pool of one host and late in the fail_timeout of failures that take a second to show; client cancellations of parked body-less requests must not count as failures.",
     "A backend handler in flight implies a forward in flight only while no client has cancelled (gauge read before cancels); expiry judged with lower bounds only; active health checks not driven.")
 
 add("C15", "exploration",
@@ -73,7 +73,7 @@ add("C15", "exploration",
     "Qualification decided by a reference predicate, never by casket's helpers; real ACME issuance, on-demand TLS and the managed-site path of the real parsing callback are not exercised (no network).")
 add("C16", "fault_enumeration",
     "runtime monitoring: a harness server type (public RegisterServerType) whose servers are real TCP listeners and whose six callback kinds append to one sequence-numbered trace; a reference lifecycle model steps in lockstep and compares, per operation, the exact multiset of callbacks and the statement's order constraints; Wait() monitored by sequence numbers; process-level endings judged from the child's trace file and exit status; Go race detector",
-    "Every operation sequence of length <=3 (quick; <=4 thorough) plus sampled longer ones over {reload-ok, reload failing at parse / setup / restart-callback / startup-callback / listen, stop+start, shutdown-callbacks} with graceful (inherited listeners) and plain servers: 3 k (quick) / 10 k+ (thorough) histories; 12 signal scenarios (SIGTERM, SIGINT, SIGINT x2, SIGQUIT, concurrent and repeated signals, SIGUSR1 ok/failing then shutdown) in child processes. Also servers whose Stop reports an error, and three scenarios in which a failing start or reload is held in the middle of its directives while a second instance is started (both live instances must be shut down exactly once, nothing of the discarded one may run).",
+    "Every operation sequence of length <=3 (quick; <=4 thorough) plus sampled longer ones over {reload-ok, reload failing at parse / setup / restart-callback / startup-callback / listen, stop+start, shutdown-callbacks} with graceful (inherited listeners) and plain servers: 3 k (quick) / 10 k+ (thorough) histories; 12 signal scenarios (SIGTERM, SIGINT, SIGINT x2, SIGQUIT, concurrent and repeated signals, SIGUSR1 ok/failing then shutdown) in child processes. Also servers whose Stop reports an error, and three scenarios in which a failing start or reload is held in the middle of its directives while a second instance is started (both live instances must be shut down exactly once, nothing of the discarded one may run). Two scenarios stop the first of three instances while the (slowed) shutdown callbacks run.",
     "Callbacks returning errors during a successful reload are outside the quantifier; for the discarded instance of a failed reload only 'startup at most once, first-startup never' is asserted; SIGQUIT / second SIGINT only require at-most-once.")
 add("C17", "exploration",
     "runtime monitoring: a real casket instance driven over loopback with generated nested limit tables, body lengths around each limit, framings and handler read sizes; a reference model (longest matching scope) judges the byte counts, checksums and errors seen by the innermost probe and by a recording proxy backend plus the 413 status; effective listener settings read from the http.Server objects the real MakeServers builds, cross-checked at the socket for the header limit",
